@@ -588,6 +588,37 @@ def energy_effect_fails():
                                       'whose first IMF leaves a residual about 67 dB down: %s, the pipeline assembled from get_next_imf (which '
                                       "honours the stage's stop verdict) gives %d" % (thr, route, cap, detail, want.shape[1]),
                                       dict(energy_effect=True, route=route, max_imfs=cap, energy_thresh=thr)))
+    # the Rilling thresholds (sd1, sd2, tol) with tol != sd1: the first component by every route must be the iterate at which the
+    # DOCUMENTED criterion with exactly these three numbers fires (independent evaluation: props/c04.py spec_gni)
+    from props import c04
+    io = dict(stop_method='rilling', rilling_thresh=(0.05, 0.5, 0.3), env_step_size=1, max_iters=1000)
+    io_same = dict(io, rilling_thresh=(0.05, 0.5, 0.05))
+    with warnings.catch_warnings():
+        warnings.simplefilter('ignore')
+        for f0, f1 in ((7, 2), (11, 4), (5, 1.5), (17, 3)):
+            xr = (1 + 0.5 * np.sin(2 * np.pi * f1 * t)) * np.sin(2 * np.pi * f0 * t + np.sin(2 * np.pi * f1 * t)) + 0.3 * np.sin(2 * np.pi * f1 * t)
+            ka, kb = c04.spec_gni(xr, io, {}, None), c04.spec_gni(xr, io_same, {}, None)
+            if ka[0] == 'stop' and kb[0] == 'stop' and not ka[3] and not kb[3] and ka[2] != kb[2]:
+                break
+        else:
+            return fails               # no probe signal on which the third threshold matters: nothing to say
+        cfg = S.get_config('sift')
+        cfg['max_imfs'] = 1
+        cfg['imf_opts/stop_method'] = 'rilling'
+        cfg['imf_opts/rilling_thresh'] = (0.05, 0.5, 0.3)
+        for route, f in (('keyword', lambda: S.sift(xr, max_imfs=1, imf_opts=dict(io))), ('config', lambda: S.sift(xr, **cfg)),
+                         ('partial', lambda: cfg.get_func()(xr))):
+            try:
+                got = np.asarray(f())
+                ok = got.shape == ka[1].shape and np.allclose(got, ka[1], rtol=0, atol=1e-9)
+                detail = 'max deviation %.3g' % float(np.abs(got - ka[1]).max()) if got.shape == ka[1].shape else 'shape %s' % (got.shape,)
+            except Exception as e:                                      # noqa
+                ok, detail = False, 'raised %s: %s' % (type(e).__name__, e)
+            if not ok:
+                fails.append(('emd/sift.py:get_next_imf', "imf_opts['rilling_thresh'] = (0.05, 0.5, 0.3) supplied by the %s route: the first "
+                              'component is not the iterate at which the documented Rilling criterion with these thresholds fires (iterate %d; '
+                              'with tol = sd1 = 0.05 it would be iterate %d): %s' % (route, ka[2], kb[2], detail),
+                              dict(energy_effect=True, route=route, option='rilling_thresh')))
     return fails
 
 
